@@ -8,7 +8,9 @@ package control
 //   TestC05_Finding_*  — deterministic reproductions of the defects found (c05_finding_test.go)
 
 import (
+	"bytes"
 	"fmt"
+	"io"
 	"net"
 	"sort"
 	"sync"
@@ -126,6 +128,7 @@ func c05RunBubble(t *testing.T, s *c05Scn, o c05GenOpt) (v c05Verdict) {
 func TestC05_Bytes(t *testing.T) {
 	const unit = "C05.bytes"
 	o := c05Opt(false)
+	vkNote(unit, "handleConn itself is driven on a minimal ControlPlane literal (no eBPF objects -> userspace routing fallback, one group, fake dialer) in 1 of 3 cases; the other cases use the wrapper stack composed from the same production functions in handleConn's order")
 	var gatherBody, gatherAll atomic.Int64
 	relayGatherWriteTestHookMu.Lock()
 	relayGatherWriteTestHook = func(prefixLen, bodyLen int) {
@@ -175,6 +178,7 @@ func TestC05_Bytes(t *testing.T) {
 func TestC05_Deadlines(t *testing.T) {
 	const unit = "C05.deadlines"
 	o := c05Opt(true)
+	vkNote(unit, "handleConn itself (incl. destination port 53 through in-memory addresses) is the entry point in 1 of 3 cases; virtual clock via testing/synctest")
 	o.Big = vkThorough()
 	rapid.Check(t, func(rt *rapid.T) {
 		oo := o
@@ -201,5 +205,84 @@ func TestC05_Deadlines(t *testing.T) {
 			key = c05NTKey(s)
 		}
 		vkCase(unit, key, func() any { return s.Summary() }, v.classes...)
+	})
+}
+
+// TestC05_WrapperRead: whatever the relay's left side is, draining it through Read
+// with arbitrary buffer sizes (the contract the buffered copy loop relies on) yields
+// exactly the client's stream: every prefix buffer is replayed once, in order.
+func TestC05_WrapperRead(t *testing.T) {
+	const unit = "C05.wrapread"
+	o := c05Opt(true)
+	o.Big = false
+	rapid.Check(t, func(rt *rapid.T) {
+		s := c05GenScn(rt, o, func(id string) { vkExcluded(unit, id) })
+		for s.Stack == c05StackPlain || s.Open != c05OpenPrompt {
+			// only stacks with a prefix buffer are of interest here
+			s = c05GenScn(rt, o, func(string) {})
+		}
+		sizes := rapid.SliceOfN(rapid.SampledFrom([]int{1, 1, 2, 3, 5, 7, 15, 16, 17, 64, 511, 4096, 40000}), 1, 12).Draw(rt, "readSizes")
+		var fail string
+		var got []byte
+		var d *c05Dae
+		synctest.Test(t, func(*testing.T) {
+			cn := c05MemConns(s)
+			d = &c05Dae{relayStarted: make(chan struct{})}
+			done := make(chan struct{})
+			go func() { // the client: its steps without the waits, then FIN
+				defer close(done)
+				off := 0
+				for _, st := range s.CSteps {
+					switch st.Op {
+					case c05OpWrite:
+						if _, err := cn.client.Write(s.C2U[off : off+st.N]); err != nil {
+							return
+						}
+						off += st.N
+					case c05OpSleep:
+						time.Sleep(st.D)
+					}
+				}
+				_ = cn.client.(*c05MemConn).CloseWrite()
+			}()
+			left, cleanup, ok := d.buildLeft(s, cn.left)
+			if ok {
+				for i := 0; ; i++ {
+					buf := make([]byte, sizes[i%len(sizes)])
+					n, err := left.Read(buf)
+					got = append(got, buf[:n]...)
+					if err != nil {
+						if err != io.EOF {
+							fail = fmt.Sprintf("Read #%d failed: %v", i, err)
+						}
+						break
+					}
+					if len(got) > len(s.C2U)+1024 {
+						fail = "more bytes than were sent"
+						break
+					}
+				}
+			}
+			cleanup()
+			_ = cn.client.Close()
+			_ = cn.right.Close()
+			_ = cn.upstream.Close()
+			<-done
+		})
+		if d.dnsHandled {
+			vkCase(unit, "", nil, "dns_query_consumed")
+			return
+		}
+		if fail == "" && !bytes.Equal(got, s.C2U) {
+			fail = "stream read through the wrapper differs: " + c05Diverge(got, s.C2U)
+		}
+		if fail != "" {
+			rt.Fatalf("%s\nread sizes %v left=%s dnsErr=%v sniffErr=%v\nscenario: %v", fail, sizes, d.stackKind, d.dnsErr, d.sniffErr, s.Summary())
+		}
+		key := ""
+		if d.stackKind != "conn" {
+			key = fmt.Sprintf("%s|%s|%v|%v|%d", d.stackKind, s.FirstKind, sizes, s.CSteps, len(s.C2U))
+		}
+		vkCase(unit, key, func() any { m := s.Summary(); m["readSizes"] = sizes; return m }, "left_"+d.stackKind, "first_"+s.FirstKind)
 	})
 }
